@@ -808,7 +808,7 @@ impl img::DiskImage for Td0 {
             }
         }
         // don't use Track::from_bytes because it may panic
-        while expanded[ptr]!=0xff {
+        while ptr<expanded.len() && expanded[ptr]!=0xff {
             let header = TrackHeader::from_bytes(&optional_get_slice!(expanded,ptr,4,"track header").to_vec()).expect("unreachable");
             // CRC of track header
             // We will not stop for bad track CRC, but do warn
@@ -825,6 +825,10 @@ impl img::DiskImage for Td0 {
             for i in 0..trk.header.sectors {
                 let mut sec = Sector::new();
                 sec.header = SectorHeader::from_bytes(&optional_get_slice!(expanded,ptr,6,"sector header").to_vec()).expect("unreachable");
+                if sec.header.sector_shift > 6 {
+                    debug!("sector size code {} is out of range",sec.header.sector_shift);
+                    return Err(DiskStructError::IllegalValue);
+                }
                 trace!("get sector {}, size {}",sec.header.id,128 << sec.header.sector_shift);
                 if sec.header.flags & NO_DATA_MASK == 0 {
                     let size_bytes = optional_get_slice!(expanded,ptr,2,"sector data header").to_vec();
@@ -852,6 +856,10 @@ impl img::DiskImage for Td0 {
                 trk.sectors.push(sec);
             }
             ans.tracks.push(trk);
+        }
+        if ptr>=expanded.len() || ans.tracks.len()==0 {
+            debug!("TD0 ended without the end-of-image mark, or has no tracks");
+            return Err(DiskStructError::UnexpectedSize);
         }
         debug!("disk capacity {}",ans.byte_capacity());
         // TODO: this works for now, but we should have the TD0 object set up a pattern
